@@ -124,6 +124,7 @@ def cpy_reading(code, it):
     r["none_key"] = it.key(None)
     r["const_is_str"] = [type(x) is str for x in code.co_consts]
     r["const_is_code"] = [isinstance(x, types.CodeType) for x in code.co_consts]
+    r["expected_all"] = sum(1 for _ in cpy.all_codes(code))
     r["table"] = list(cpy.linetable_of(code))
     r["first"] = code.co_firstlineno
     r["argcount"] = code.co_argcount
@@ -264,6 +265,19 @@ def lib_projection(code, it, cd=None, nested_tok=None):
         r["nargs"] = 0
         r["doc"] = []
         r["fn_type"] = ""
+    # C14: what iteration yields (tokens of the constant-table entries they equal; -2 = none)
+    if code is not None:
+        try:
+            r["iter"] = [const_tok(x) for x in cd]
+            allcd = list(cd.all_code_data())
+            r["all_count"] = len(allcd)
+            r["all_first_self"] = bool(allcd) and allcd[0] is cd
+            r["iter_exc"] = ""
+        except BaseException as e:  # noqa
+            r["iter"] = []
+            r["all_count"] = -1
+            r["all_first_self"] = False
+            r["iter_exc"] = type(e).__name__
     return r, cd
 
 
@@ -437,7 +451,7 @@ _LIB_DEFAULTS = dict(
     instrs=[], block_starts=[], block_lens=[], additional=[], addline=[], first=0, name=-1, filename=-1, stacksize=0,
     freevars=[], annotations=False, nested=False, is_fn=False,
     args={"po": [], "pk": [], "va": [], "ko": [], "vk": []}, params=[], nargs=0, doc=[], fn_type="",
-    removal=[], removal_candidates=0, iter=[], exc="", exc_type="",
+    removal=[], removal_candidates=0, iter=[], all_count=-1, all_first_self=False, iter_exc="", exc="", exc_type="",
 )
 _INSP_DEFAULTS = dict(ok=False, doc=[], kind="", bind=[], sig=[], sig_ok=False, err="")
 
@@ -559,6 +573,39 @@ def units_to_file(cases, path):
     for c in cases:
         code = synth_code(c["units"], c.get("alt", False))
         evs.append(full_event(code, c["id"]))
+    with open(path, "w") as fh:
+        for e in evs:
+            fh.write(json.dumps(e, separators=(",", ":")) + "\n")
+    return len(evs)
+
+
+# --------------------------------------------------------------------------- C14: nesting shapes
+
+
+def nest_code(tree, name="n"):
+    """a real code object for an MC_Nesting tree: [[mode, subtree], ...]; mode "once" / "twice" /
+    "unref" says how many LOAD_CONST instructions reference that code constant"""
+    consts = [None]
+    body = bytearray()
+    for k, (mode, sub) in enumerate(tree):
+        child = nest_code(sub, "%s%d" % (name, k))
+        consts.append(child)
+        idx = len(consts) - 1
+        for _ in range({"once": 1, "twice": 2, "unref": 0}[mode]):
+            body += bytes([dis.opmap["LOAD_CONST"], idx, dis.opmap["POP_TOP"], 0])
+    body += bytes([dis.opmap["LOAD_CONST"], 0, dis.opmap["RETURN_VALUE"], 0])
+    n = len(body) // 2
+    table = bytes([2 * n, 0]) if LT else b""
+    return cpy.code_replace(cpy._BASE, co_code=bytes(body), co_consts=tuple(consts), co_name=name, co_lnotab=table,
+                            co_stacksize=2)
+
+
+def nests_to_file(cases, path):
+    evs = []
+    for c in cases:
+        code = nest_code(c["tree"])
+        for p, k in cpy.all_codes(code):
+            evs.append(full_event(k, "%s:%s" % (c["id"], p)))
     with open(path, "w") as fh:
         for e in evs:
             fh.write(json.dumps(e, separators=(",", ":")) + "\n")
